@@ -2,6 +2,7 @@
 // cases and prints one canonical line per case: "<family>\t<input>\t<impl result>".
 // The extracted Coq model (extract/driver) reads these lines and reports disagreements.
 mod fam_lex;
+mod fam_pk;
 mod fam_symtab;
 mod fam_types;
 mod util;
@@ -17,6 +18,7 @@ fn main() {
         "types" => fam_types::run(rest),
         "symtab" => fam_symtab::run(rest),
         "lex" => fam_lex::run(rest),
+        "pk" => fam_pk::run(rest),
         f => {
             eprintln!("unknown family {f}");
             std::process::exit(2);
